@@ -12,8 +12,25 @@ def _writes_attr(fi, attr):
 def run(ctx):
     p, cg = ctx.p, ctx.cg
     tp = ctx.cls("clikit.args.token_parser.TokenParser")
-    methods = tp.methods
-    ctx.require("_next" in methods and "_is_valid" in methods, "TokenParser._next/_is_valid missing")
+    methods = dict(tp.methods)
+    # the validity predicate and the cursor advance are found by what they do, not by name:
+    # validity = a method whose only statement returns `self.<attr> is not None`;
+    # advance  = the method that increments an int attribute by one and re-loads that <attr>
+    valid_m = None
+    for name, m in tp.methods.items():
+        rets = q.returns(m)
+        if len(rets) == 1 and isinstance(rets[0].value, ast.Compare) and is_self_attr(rets[0].value.left) and isinstance(rets[0].value.ops[0], ast.IsNot) and len(m.node.body) <= 2:
+            valid_m = m
+    ctx.require(valid_m is not None, "TokenParser has no validity predicate (return self.<attr> is not None)")
+    adv_m = None
+    for name, m in tp.methods.items():
+        if any(isinstance(n, ast.AugAssign) and isinstance(n.op, ast.Add) and is_self_attr(n.target) and isinstance(n.value, ast.Constant) and n.value.value == 1 for n in walk_no_nested(m.node)):
+            adv_m = m
+    ctx.require(adv_m is not None, "TokenParser has no cursor advance (self.<cursor> += 1)")
+    methods = {k: v for k, v in methods.items()}
+    methods.setdefault("_is_valid", valid_m)
+    methods.setdefault("_next", adv_m)
+    VALID_NAME = valid_m.name
     # Optional attributes: initialised to None or declared Optional
     init = methods.get("__init__")
     optional = set()
@@ -53,7 +70,7 @@ def run(ctx):
         """T/F pseudo node proving self.<attr> is not None"""
         e = node.ast
         if node.kind == "T":
-            if isinstance(e, ast.Call) and isinstance(e.func, ast.Attribute) and e.func.attr == "_is_valid" and attr == valid_attr:
+            if isinstance(e, ast.Call) and isinstance(e.func, ast.Attribute) and e.func.attr == VALID_NAME and attr == valid_attr:
                 return True
             if isinstance(e, ast.Compare) and is_self_attr(e.left, attr) and isinstance(e.ops[0], ast.IsNot) and isinstance(e.comparators[0], ast.Constant) and e.comparators[0].value is None:
                 return True
@@ -125,7 +142,7 @@ def run(ctx):
     # _next itself must advance when valid: cursor += 1 on the path after the validity test
     nx = methods["_next"]
     cfgn = ctx.cfg(nx)
-    incs = [n for n in cfgn.nodes if n.kind == "stmt" and isinstance(n.ast, ast.AugAssign) and is_self_attr(n.ast.target, "_cursor") and isinstance(n.ast.op, ast.Add)]
+    incs = [n for n in cfgn.nodes if n.kind == "stmt" and isinstance(n.ast, ast.AugAssign) and is_self_attr(n.ast.target) and isinstance(n.ast.op, ast.Add)]
     curw = [n for n in cfgn.nodes if n.kind == "stmt" and isinstance(n.ast, ast.Assign) and any(is_self_attr(t, valid_attr) for t in n.ast.targets)]
     if incs and curw:
         r.ok("_next: increments the cursor and reloads the current character")
@@ -149,13 +166,13 @@ def run(ctx):
     while changed:
         changed = False
         for name, m in methods.items():
-            if m.qualname in adv or name in ("__init__", "parse", "_is_valid"):
+            if m.qualname in adv or name in ("__init__", "parse", "_is_valid", VALID_NAME):
                 continue
             cfg = ctx.cfg(m)
             calls = adv_calls(m)
             # infeasible under "valid at entry": the false edge of a validity test reached before any call
             nocall = cfg.reach([cfg.entry.id], blocked=[n.id for n in cfg.nodes if n.kind in ("stmt", "return") and any(isinstance(s, ast.Call) for s in walk_no_nested(n.ast))])
-            infeasible = [n.id for n in cfg.nodes if n.kind == "F" and n.id in nocall and isinstance(n.ast, ast.Call) and isinstance(n.ast.func, ast.Attribute) and n.ast.func.attr == "_is_valid"]
+            infeasible = [n.id for n in cfg.nodes if n.kind == "F" and n.id in nocall and isinstance(n.ast, ast.Call) and isinstance(n.ast.func, ast.Attribute) and n.ast.func.attr == VALID_NAME]
             if calls and cfg.exit.id not in cfg.reach([cfg.entry.id], blocked=list(calls) + infeasible):
                 adv.add(m.qualname)
                 changed = True
@@ -170,7 +187,7 @@ def run(ctx):
             # while the scanner is provably still valid cannot take its false edge
             redundant_f = set()
             for cn in cfg.conds():
-                if isinstance(cn.ast, ast.Call) and isinstance(cn.ast.func, ast.Attribute) and cn.ast.func.attr == "_is_valid" and in_state(m, [cn.id], valid_attr):
+                if isinstance(cn.ast, ast.Call) and isinstance(cn.ast.func, ast.Attribute) and cn.ast.func.attr == VALID_NAME and in_state(m, [cn.id], valid_attr):
                     f = cfg.false_of(cn)
                     if f is not None:
                         redundant_f.add(f.id)
@@ -188,7 +205,7 @@ def run(ctx):
                        "advanced the cursor: tokenising does not terminate")
     # callees relied on as 'advancing' need their precondition (valid at entry)
     for name, m in sorted(methods.items()):
-        if m.qualname in adv and name != "_next":
+        if m.qualname in adv and m is not adv_m and name not in ("_next", "_is_valid"):
             for cs in cg.callers.get(m.qualname, []):
                 cal = cs.caller
                 if cal.cls is not tp:
@@ -273,24 +290,7 @@ def run(ctx):
         tok_f, opt_f = ret_field("tokens"), ret_field("option_tokens")
         has_tok, has_opt = ret_field("has_token"), ret_field("has_option_token")
         init = c.methods.get("__init__")
-        derived_ok = False
-        detail = "no takewhile"
-        if init is not None and opt_f:
-            for n in walk_no_nested(init.node):
-                if isinstance(n, ast.Assign) and any(is_self_attr(t, opt_f) for t in n.targets):
-                    tw = [x for x in walk_no_nested(n.value) if isinstance(x, ast.Call) and norm(x.func).endswith("takewhile")]
-                    for x in tw:
-                        if len(x.args) == 2 and isinstance(x.args[0], ast.Lambda):
-                            body = x.args[0].body
-                            sep = isinstance(body, ast.Compare) and isinstance(body.ops[0], ast.NotEq) and any(isinstance(k, ast.Constant) and k.value == "--" for k in [body.left] + body.comparators)
-                            src = x.args[1]
-                            src_ok = (isinstance(src, ast.Attribute) and src.attr in ("tokens", tok_f)) or (isinstance(src, ast.Name))
-                            if sep and src_ok:
-                                derived_ok = True
-                            else:
-                                detail = "takewhile(%s, %s)" % (norm(body), norm(src))
-                    if not tw:
-                        detail = norm(n.value)[:60]
+        derived_ok, detail = _option_tokens_derivation(ctx, c, init, opt_f, tok_f)
         if opt_f and derived_ok:
             r.ok("%s: %s = takewhile(!= '--', tokens)" % (c.name, opt_f))
         else:
@@ -308,3 +308,70 @@ def run(ctx):
             r.fail(m or init, (m or init).node, "%s.has_token -> %s" % (c.name, has_tok), "%s.has_token consults %s instead of the tokens (%s)" % (c.name, has_tok, tok_f))
         summaries[c.name] = (bool(tok_f), bool(opt_f), derived_ok)
     return ctx.results
+
+
+def _option_tokens_derivation(ctx, c, init, opt_f, tok_f):
+    """Is self.<opt_f> the prefix of the tokens before the first '--'?  Accepted forms (in __init__ or in a
+    private helper it calls): list(takewhile(lambda a: a != '--', <tokens>)) or the explicit loop
+    `for t in <tokens>: if t == '--': break; out.append(t)`."""
+    if init is None or not opt_f:
+        return False, "no option tokens field"
+
+    def is_tokens(e):
+        return (isinstance(e, ast.Attribute) and e.attr in ("tokens", tok_f)) or isinstance(e, ast.Name)
+
+    def takewhile_ok(expr):
+        for x in walk_no_nested(expr):
+            if isinstance(x, ast.Call) and norm(x.func).endswith("takewhile") and len(x.args) == 2 and isinstance(x.args[0], ast.Lambda):
+                body = x.args[0].body
+                sep = isinstance(body, ast.Compare) and isinstance(body.ops[0], ast.NotEq) and any(isinstance(k, ast.Constant) and k.value == "--" for k in [body.left] + body.comparators)
+                if sep and is_tokens(x.args[1]):
+                    return True, "takewhile"
+                return False, "takewhile(%s, %s)" % (norm(body), norm(x.args[1]))
+        return None, ""
+
+    def loop_ok(fn, var):
+        """var is a local list filled by the stop-at-'--' loop in fn"""
+        for lp in [n for n in walk_no_nested(fn.node) if isinstance(n, ast.For) and isinstance(n.target, ast.Name) and is_tokens(n.iter)]:
+            t = lp.target.id
+            stops = [n for n in lp.body if isinstance(n, ast.If) and isinstance(n.test, ast.Compare) and isinstance(n.test.ops[0], ast.Eq)
+                     and any(isinstance(k, ast.Constant) and k.value == "--" for k in [n.test.left] + n.test.comparators) and any(isinstance(b, ast.Break) for b in n.body)]
+            apps = [cc for cc in q.calls(lp) if isinstance(cc.func, ast.Attribute) and cc.func.attr == "append" and norm(cc.func.value) == var and cc.args and isinstance(cc.args[0], ast.Name) and cc.args[0].id == t]
+            if stops and apps:
+                # the stop test precedes the append in the body
+                if lp.body.index(stops[0]) < min(lp.body.index(q.stmt_of(a)) for a in apps if q.stmt_of(a) in lp.body or True and q.stmt_of(a) in lp.body) if any(q.stmt_of(a) in lp.body for a in apps) else True:
+                    return True
+        return False
+
+    def judge(fn, expr, depth=0):
+        ok, det = takewhile_ok(expr)
+        if ok is not None:
+            return ok, det
+        if isinstance(expr, ast.Call) and isinstance(expr.func, ast.Attribute) and isinstance(expr.func.value, ast.Name) and expr.func.value.id == "self" and depth < 2:
+            h = c.methods.get(expr.func.attr) or ctx.p.lookup_method(c, expr.func.attr)
+            if h is not None:
+                res = [judge(h, r.value, depth + 1) for r in q.returns(h) if r.value is not None]
+                if res and all(x[0] for x in res):
+                    return True, "helper " + h.name
+                return False, "helper %s: %s" % (h.name, "; ".join(x[1] for x in res if not x[0]) or "no return")
+        if isinstance(expr, ast.Name):
+            defs = [n for n in walk_no_nested(fn.node) if isinstance(n, ast.Assign) and any(isinstance(t, ast.Name) and t.id == expr.id for t in n.targets)]
+            for d in defs:
+                ok, det = takewhile_ok(d.value)
+                if ok:
+                    return True, det
+            if loop_ok(fn, expr.id):
+                return True, "stop-at-'--' loop"
+            return False, "local %s is not the prefix before '--'" % expr.id
+        if is_self_attr(expr) and loop_ok(fn, norm(expr)):
+            return True, "stop-at-'--' loop"
+        return False, norm(expr)[:60]
+
+    for n in walk_no_nested(init.node):
+        if isinstance(n, ast.Assign) and any(is_self_attr(t, opt_f) for t in n.targets):
+            v = n.value
+            ok, det = judge(init, v)
+            if not ok and isinstance(v, (ast.List, ast.Call)) and loop_ok(init, "self." + opt_f):
+                return True, "stop-at-'--' loop"
+            return ok, det
+    return False, "option tokens never assigned in __init__"
